@@ -534,6 +534,20 @@ def r01c(ctx):
         ctx.violation("R01c", ed.file, "MultiSetEdit.edits", ed.node, "edits() groups",
                       f"edits() must yield identical matches, key pre-matches, matcher pairs and the unmatched remainder of "
                       f"both sides; missing {miss + [w for w in (want_r, want_i) if w not in srcs]} (has {sorted(srcs)})")
+    elif True and [st_ for nm_ in (_re.search(r"- (\w+)\)", want_r), _re.search(r"- (\w+)\)", want_i)) if nm_
+                   for st_ in walk_no_nested(ed.node)
+                   if ((isinstance(st_, ast.Assign) and isinstance(st_.targets[0], ast.Subscript) and dotted(st_.targets[0].value) == nm_.group(1))
+                       or (isinstance(st_, ast.AugAssign) and isinstance(st_.target, ast.Subscript) and dotted(st_.target.value) == nm_.group(1)
+                           and not (isinstance(st_.op, ast.Add) and isinstance(st_.value, ast.Constant) and st_.value.value == 1)))]:
+        bad_ = [st_ for nm_ in (_re.search(r"- (\w+)\)", want_r), _re.search(r"- (\w+)\)", want_i)) if nm_
+                for st_ in walk_no_nested(ed.node)
+                if ((isinstance(st_, ast.Assign) and isinstance(st_.targets[0], ast.Subscript) and dotted(st_.targets[0].value) == nm_.group(1))
+                    or (isinstance(st_, ast.AugAssign) and isinstance(st_.target, ast.Subscript) and dotted(st_.target.value) == nm_.group(1)
+                        and not (isinstance(st_.op, ast.Add) and isinstance(st_.value, ast.Constant) and st_.value.value == 1)))][0]
+        ctx.violation("R01c", ed.file, "MultiSetEdit.edits", bad_, "edits() groups",
+                      f"`{norm(bad_, 60)}`: the tally of members the matcher paired must grow by exactly one per pair; any other update "
+                      f"takes more (or fewer) copies of a repeated member out of the remainder than were paired, and the surplus "
+                      f"copies are neither matched, removed nor inserted")
     else:
         ctx.proved("R01c", ed.file, "MultiSetEdit.edits", ed.node, "edits() groups",
                    "yields _edits, _matched_kvp_edits, matcher pairs, Remove over to_remove - matched, Insert over to_insert - matched")
